@@ -418,6 +418,17 @@ MODULES = {
 %a = "affine.apply"(%z, %z) <{map = affine_map<(d0)[s0] -> (((d0 + (s0 * 42)) + -1))>}> : (index, index) -> index
 "test.op"(%l, %n, %a) : (f64, f64, index) -> ()
 """,
+    "vector_transfer": """
+%base, %i, %pad = "test.op"() : () -> (memref<4x4xindex>, index, index)
+%m = "test.op"() : () -> vector<4xi1>
+%r0 = "vector.transfer_read"(%base, %i, %i, %pad) <{in_bounds = [true], permutation_map = affine_map<(d0, d1) -> (d0)>, operandSegmentSizes = array<i32: 1, 2, 1, 0>}> : (memref<4x4xindex>, index, index, index) -> vector<4xindex>
+%r1 = "vector.transfer_read"(%base, %i, %i, %pad) <{in_bounds = [true], permutation_map = affine_map<(d0, d1) -> (d1)>, operandSegmentSizes = array<i32: 1, 2, 1, 0>}> : (memref<4x4xindex>, index, index, index) -> vector<4xindex>
+%r2 = "vector.transfer_read"(%base, %i, %i, %pad) <{in_bounds = [true, false], permutation_map = affine_map<(d0, d1) -> (d0, d1)>, operandSegmentSizes = array<i32: 1, 2, 1, 0>}> : (memref<4x4xindex>, index, index, index) -> vector<2x4xindex>
+%r3 = "vector.transfer_read"(%base, %i, %i, %pad, %m) <{in_bounds = [false], permutation_map = affine_map<(d0, d1) -> (d1)>, operandSegmentSizes = array<i32: 1, 2, 1, 1>}> : (memref<4x4xindex>, index, index, index, vector<4xi1>) -> vector<4xindex>
+"vector.transfer_write"(%r0, %base, %i, %i) <{in_bounds = [true], permutation_map = affine_map<(d0, d1) -> (d0)>, operandSegmentSizes = array<i32: 1, 1, 2, 0>}> : (vector<4xindex>, memref<4x4xindex>, index, index) -> ()
+"vector.transfer_write"(%r2, %base, %i, %i) <{in_bounds = [false, true], permutation_map = affine_map<(d0, d1) -> (d0, d1)>, operandSegmentSizes = array<i32: 1, 1, 2, 0>}> : (vector<2x4xindex>, memref<4x4xindex>, index, index) -> ()
+"vector.transfer_write"(%r3, %base, %i, %i, %m) <{in_bounds = [false], permutation_map = affine_map<(d0, d1) -> (d1)>, operandSegmentSizes = array<i32: 1, 1, 2, 1>}> : (vector<4xindex>, memref<4x4xindex>, index, index, vector<4xi1>) -> ()
+""",
 }
 
 
@@ -852,7 +863,8 @@ def build_module(ob, src):
 # discardable attributes named like a property that the tree is known to lose in custom form (known_findings.json); the
 # general variants leave these out and a dedicated obligation per entry keeps reporting them
 KNOWN_CLASH = {("*", "operandSegmentSizes"), ("func.func", "sym_name"), ("func.func", "function_type"), ("func.func", "sym_visibility"), ("func.func", "arg_attrs"),
-               ("memref.alloc", "alignment"), ("memref.alloca", "alignment"), ("llvm.*", "*")}
+               ("memref.alloc", "alignment"), ("memref.alloca", "alignment"), ("llvm.*", "*"),
+               ("vector.transfer_read", "in_bounds"), ("vector.transfer_read", "permutation_map"), ("vector.transfer_write", "in_bounds"), ("vector.transfer_write", "permutation_map")}
 
 
 def toggle_units(m, src):
@@ -872,6 +884,21 @@ def toggle_units(m, src):
                     op.properties[name] = UnitAttr()
                 else:
                     op.properties.pop(name, None)
+
+
+def toggle_bools(m, src):
+    """arrays of booleans among the properties (in_bounds, ...): as written / all true / all false / alternating"""
+    from xdsl.dialects.builtin import ArrayAttr, BoolAttr, IntegerType
+
+    sel = src.choose("bool_pattern", 5)
+    if sel == 0:
+        return
+    for op in list(m.walk()):
+        for k, v in list(op.properties.items()):
+            if isinstance(v, ArrayAttr) and v.data and all(isinstance(e, IntegerAttr) and e.type == IntegerType(1) for e in v.data):
+                n = len(v.data)
+                vals = {1: [True] * n, 2: [False] * n, 3: [i % 2 == 0 for i in range(n)], 4: [i % 2 == 1 for i in range(n)]}[sel]
+                op.properties[k] = ArrayAttr([BoolAttr.from_bool(b) for b in vals])
 
 
 def add_discardable(m, src, only=None):
@@ -909,6 +936,8 @@ def harness(ob, concrete=None):
         m = build_module(ob, src)
         if ob.get("units"):
             toggle_units(m, Src(ex, concrete))
+        if ob.get("bools"):
+            toggle_bools(m, Src(ex, concrete))
         if ob.get("attrs"):
             add_discardable(m, Src(ex, concrete))
         if ob.get("clash_only"):
@@ -980,12 +1009,14 @@ def obligations(tier):
     obs.append({"id": "C05/clash_known/segment_sizes", "module": "cf", "clash_only": [["cf.cond_br", "operandSegmentSizes"]], "weight": 2})
     obs.append({"id": "C05/clash_known/func", "module": "func", "clash_only": [["func.func", n] for n in ("sym_name", "function_type", "sym_visibility", "arg_attrs")], "weight": 2})
     obs.append({"id": "C05/clash_known/alignment", "module": "memref", "clash_only": [["memref.alloc", "alignment"]], "weight": 2})
+    obs.append({"id": "C05/clash_known/vector_transfer", "module": "vector_transfer", "clash_only": [["vector.transfer_read", "in_bounds"]], "weight": 2})
     obs.append({"id": "C05/clash_known/llvm", "module": "llvm_agg", "clash_only": [["llvm.extractvalue", "position"]], "weight": 2})
     obs.append({"id": "C05/cmp1/pred", "module": "cmp1", "sym_pred": True, "sym_enum": True, "weight": 8})
     obs.append({"id": "C05/arith_float/flags", "module": "arith_float", "sym_enum": True, "weight": 8})
     obs.append({"id": "C05/arith_bin/flags", "module": "arith_bin", "sym_enum": True, "weight": 5})
     for k in ("llvm_arith", "llvm_mem", "llvm_ldst", "llvm_global", "global", "llvm_func"):
         obs.append({"id": f"C05/{k}/units", "module": k, "units": True, "weight": 4})
+    obs.append({"id": "C05/vector_transfer/bools", "module": "vector_transfer", "bools": True, "weight": 4})
     obs.append({"id": "C05/llvm_arith/flags", "module": "llvm_arith", "sym_enum": True, "sym_pred": True, "weight": 5})
     for g in GENS:
         o = {"id": f"C05/gen/{g}", "gen": g, "weight": 6}
